@@ -121,9 +121,10 @@ interpolation on the cached path; `L` (longest valid segment length) is a record
 
 def showMV (r : OmplModel.Motion.Result) (n : Nat) (havePath : Bool) (lseg : Float) (showAt : Nat → String) (lvState : Float → String) : String :=
   let qs := r.queries.map showAt
-  let lv := match r.failAt with
-    | some j => if havePath then
-        let t := Float.ofInt ((j : Int) - 1) / Float.ofNat n
+  -- `lastValid.second` as C05's model gives it: `(j - 1)/nd`, and `0` for `nd = 0` (since fix e0f5863f3)
+  let lv := match r.lastValid n with
+    | some (num, den) => if havePath then
+        let t := Float.ofInt num / Float.ofNat den
         floatBits t ++ ":" ++ lvState t
       else "none"
     | none => "none"
@@ -394,9 +395,9 @@ def stepOwen (st : St) (ts : List String) : St × String :=
                else OmplModel.Motion.checkMotion3 .dubins3D path.isSome n v
       let show4 (q : OmplModel.Owen.St4 Float) : String := ",".intercalate [floatBits q.x, floatBits q.y, floatBits q.z, floatBits q.yaw]
       let qs := r.queries.map (fun j => show4 (stateAt j))
-      let lv := match r.failAt, path with
-        | some j, some p =>
-          let t := Float.ofInt ((j : Int) - 1) / Float.ofNat n   -- `(double)(j - 1) / (double)nd` with `int` operands (nd = 0 gives -inf)
+      let lv := match r.lastValid n, path with
+        | some (num, den), some p =>
+          let t := Float.ofInt num / Float.ofNat den   -- `(j - 1)/nd`, `0` for `nd = 0` (fix e0f5863f3), as in C05's `Motion.Result.lastValid`
           floatBits t ++ ":" ++ show4 (OmplModel.Owen.interpWith s1 s2 t p)
         | _, _ => "none"
       (st, "res=" ++ (if r.verdict then "1" else "0") ++ " nd=" ++ (if path.isSome then toString n else "-") ++ " L=" ++ floatBits lseg ++
